@@ -11,6 +11,8 @@ from .rules import generic as RG
 from .rules import domain as RD
 from .rules import matrixarray as RM
 from .rules import tables as RT
+from .rules import density as RDn
+from .rules import omega_tab as RO
 
 PROPS = {}
 
@@ -118,7 +120,33 @@ prop('C14',
      'invariant of a single method.', trusted=('A1',))
 
 
-def run(pid, tier, repo, seed=0, replay=None):
+prop('C15',
+     [('R00.dyn', RG.rule_no_dynamic), ('R15.f', RDn.rule_density), ('R15.s', RDn.rule_diameter),
+      ('R15.k', RDn.rule_checks), ('R15.w', RDn.rule_who_may_write), ('R13.9', RM.rule_items),
+      ('R14.m', RT.rule_pairtable_setitem), ('R14.k', RT.rule_setunset_check)],
+     'Static analysis of Density/Diameter: the setters are abstractly interpreted on an arbitrary symbolic pre-state '
+     'with a symbolic type label; the inner loop over all types is case-split on (partner is the assigned type / another '
+     'assigned type / unassigned) and in every case the stores must equal the specification (rho_a rho_b, rho_a or '
+     'rho_a+rho_b, sum of assigned densities, (d_a+d_b)/2, pi d^3/6) evaluated with post-state values, keyed by the '
+     'pair through the symmetric setters (R13.9, R14.m); this is an inductive invariant, so it covers every assignment '
+     'order and re-assignment; total is recomputed from zero per key; check() delegation; who-may-write sweep.',
+     'floating-point rounding of the products/sums.', trusted=('A1', 'A4', 'A5'))
+
+
+prop('C12',
+     [('R00.dyn', RG.rule_no_dynamic), ('R12.g', RO.rule_fromarray), ('R12.f', RO.rule_fromfile),
+      ('R12.e', RT.rule_export)],
+     'Static analysis of FromArray/FromFile: constructor and calculate(k) are abstractly interpreted; every normally '
+     'returning path (asserts and if/raise alike, paths enumerated over the data-dependent branches) must carry the '
+     'facts len(values)==len(k) and, when a k column exists, len(k column)==len(k) and np.allclose(k column, k) with '
+     'default tolerances; the returned term must be the stored array / second file column itself (no arithmetic, '
+     'slicing or re-ordering); the constructor must store fresh copies (np.array, not np.asarray/assignment) and '
+     'calculate must write nothing; PairTable.exportToMatrixArray refuses unequal lengths before building the array.',
+     'np.loadtxt / np.allclose behaviour (trusted); asserts under python -O (A3); rejection of a wrong-length one-column '
+     'file in a rank-1 system happens in numpy shape checking, not in pyPRISM code.', trusted=('A1', 'A2', 'A3'))
+
+
+def run(pid, tier, repo, seed=0, replay=None, write=True):
     if pid not in PROPS:
         print('ANALYSIS-ERROR property=%s: no check is registered for this property' % pid)
         return 2
@@ -143,4 +171,4 @@ def run(pid, tier, repo, seed=0, replay=None):
             return 1
         print('replayed obligation %s %s %s no longer violates' % (replay['rule'], replay['construct'], replay['key']))
         return 0
-    return ctx.finish(spec['explanation'], spec['not_decided'], spec['assumptions'])
+    return ctx.finish(spec['explanation'], spec['not_decided'], spec['assumptions'], write=write)
